@@ -216,6 +216,18 @@ func scenMalformed(rep *Report, tier string, seed int64) {
 		if which == 2 || which == 3 {
 			b.TX = append(b.TX, malformedEntries(r, config.TransactionChain, b.TX, 1+r.Intn(4), rep)...)
 		}
+		// validly signed batches whose amounts do not fit in an int64 (transfer and conversion)
+		if u := g.Users[i%len(g.Users)]; !(u.IsE && h <= s.Acts.RCDE) {
+			var o factom.FAAddress
+			r.Read(o[:])
+			huge := uint64(1)<<63 + uint64(r.Intn(1000))
+			if i%2 == 0 {
+				b.TX = append(b.TX, g.Batch(h, u, []fat2.Transaction{Transfer(u.FA(), fat2.PTickerUSD, fat2.AddressAmountTuple{Address: o, Amount: huge})}))
+			} else {
+				b.TX = append(b.TX, g.Batch(h, u, []fat2.Transaction{Conversion(u.FA(), fat2.PTickerUSD, huge, fat2.PTickerEUR)}))
+			}
+			rep.Count("malformed:amount-above-int64")
+		}
 		res, cont := stepExpectOK(rep, run, b, seed, "block with malformed entries", "liveness")
 		rep.Case(fmt.Sprintf("chains=%d|%s|opr%d|spr%d|tx%d", which, res.ImplClass, bucket(len(b.OPR)), bucket(len(b.SPR)), bucket(len(b.TX))), true)
 		rep.Count("result:" + res.ImplClass)
@@ -275,11 +287,17 @@ func scenDups(rep *Report, tier string, seed int64) {
 			ungraded := func(h uint32, txs ...factom.Entry) *BlockSpec {
 				return &BlockSpec{Height: h, Time: BlockTime(h), TX: txs}
 			}
+			// every repetition is followed, in the same entry block, by a fresh valid transfer of
+			// another user (present in both runs): whatever the copy does to the entries after it
+			// shows as a different ledger
+			tails := 0
 			dup := func(e factom.Entry) []factom.Entry {
+				tails++
+				tail := gg.Batch(15, v, []fat2.Transaction{Transfer(v.FA(), fat2.PTickerFCT, fat2.AddressAmountTuple{Address: u.FA(), Amount: uint64(1000 + tails)})})
 				if withDup {
-					return []factom.Entry{e}
+					return []factom.Entry{e, tail}
 				}
-				return nil
+				return []factom.Entry{tail}
 			}
 			var plan []*BlockSpec
 			switch pat {
